@@ -87,7 +87,8 @@ class G:
             is_wait = (i > 0 or r.random() < 0.3) and r.random() < waits and total is None
             if is_wait:
                 t = (elapsed + n) / SR
-                ops.append({"op": "bp.insert", "id": bid, "pos": -1, "fn": "waituntil", "args": [enc(t)], "dur": None, "name": None})
+                ops.append({"op": "bp.insert", "id": bid, "pos": -1, "fn": "waituntil", "args": [enc(t)], "dur": None,
+                            "name": enc("mywait") if (n + i) % 3 == 0 else None})     # special segments keep their protected name (D8)
                 segs.append(("waituntil", n))
             else:
                 fn, args = self.fn_and_args(kinds_l, SR, n)
@@ -199,7 +200,7 @@ class SeqGen:
                     w2 = r.randint(w1 + c + 2, N - 2)
                     bops = [{"op": "bp.new", "id": bid},
                             {"op": "bp.insert", "id": bid, "pos": -1, "fn": "ramp", "args": [enc(dyadic(r)), enc(dyadic(r))], "dur": enc(a / SR), "name": None},
-                            {"op": "bp.insert", "id": bid, "pos": -1, "fn": "waituntil", "args": [enc(w1 / SR)], "dur": None, "name": None},
+                            {"op": "bp.insert", "id": bid, "pos": -1, "fn": "waituntil", "args": [enc(w1 / SR)], "dur": None, "name": enc("hold") if w1 % 2 else None},
                             {"op": "bp.insert", "id": bid, "pos": -1, "fn": "ramp", "args": [enc(dyadic(r)), enc(dyadic(r))], "dur": enc(c / SR), "name": None},
                             {"op": "bp.insert", "id": bid, "pos": -1, "fn": "waituntil", "args": [enc(w2 / SR)], "dur": None, "name": None},
                             {"op": "bp.insert", "id": bid, "pos": -1, "fn": "ramp", "args": [enc(dyadic(r)), enc(dyadic(r))], "dur": enc((N - w2) / SR), "name": None},
@@ -213,7 +214,7 @@ class SeqGen:
                     w = r.randint(a + 2, N - 2)
                     bops = [{"op": "bp.new", "id": bid},
                             {"op": "bp.insert", "id": bid, "pos": -1, "fn": "ramp", "args": [enc(dyadic(r)), enc(dyadic(r))], "dur": enc(a / SR), "name": None},
-                            {"op": "bp.insert", "id": bid, "pos": -1, "fn": "waituntil", "args": [enc(w / SR)], "dur": None, "name": None},
+                            {"op": "bp.insert", "id": bid, "pos": -1, "fn": "waituntil", "args": [enc(w / SR)], "dur": None, "name": enc("mywait") if w % 2 else None},
                             {"op": "bp.insert", "id": bid, "pos": -1, "fn": "ramp", "args": [enc(dyadic(r)), enc(dyadic(r))], "dur": enc((N - w) / SR), "name": None},
                             {"op": "bp.setSR", "id": bid, "SR": enc(SR)}]
                     info = {"SR": SR, "counts": [a, w - a, N - w], "N": N}
